@@ -33,10 +33,13 @@ Local Notation "x <~ p ;; k" := (pbind p (fun x => k)) (at level 61, p at next l
                 the implementation writes them big-endian like every other interleaved array)
    rd_uid_be  : the three UniqueId fields big-endian (doc gives `u32`,`u32`,`i64` with no byte order noted)
    rd_uid_rot : UniqueId.Random rotated left by one bit (doc: "stored in the order as written above with no
-                modifications in the binary format"; the implementation rotates) *)
-Record bs_reading := mkReading { rd_sstr_be : bool; rd_uid_be : bool; rd_uid_rot : bool }.
-Definition bs_literal : bs_reading := mkReading false false false.
-Definition bs_amended : bs_reading := mkReading true true true.
+                modifications in the binary format"; the implementation rotates)
+   rd_content_types_i32 : Content.SourceTypes stored as an Int32 array (transformed, interleaved) instead of the document's
+                "Array(Enum)" (Enum: "an unsigned 32-bit integer ... stored as big endian"): source type 1 is written
+                `00 00 00 02` by the implementation, `00 00 00 01` by the document *)
+Record bs_reading := mkReading { rd_sstr_be : bool; rd_uid_be : bool; rd_uid_rot : bool; rd_content_types_i32 : bool }.
+Definition bs_literal : bs_reading := mkReading false false false false.
+Definition bs_amended : bs_reading := mkReading true true true true.
 
 (* ================================================================ error classes *)
 Definition BS_EOF : N := ERR_EOF.        (* 1: a field extends past the end of its chunk / of the file *)
@@ -318,8 +321,10 @@ Fixpoint content_uris (l : list bs_content) : list bytes :=
   match l with [] => [] | BCUri s :: r => s :: content_uris r | _ :: r => content_uris r end.
 Fixpoint content_objs (l : list bs_content) : list Z :=
   match l with [] => [] | BCObject z :: r => z :: content_objs r | _ :: r => content_objs r end.
-Definition e_content (l : list bs_content) (ext : list Z) : bytes :=
-  enc_u32_array (List.map content_type l)
+Definition e_ctypes (rd : bs_reading) (l : list N) : bytes :=
+  if rd_content_types_i32 rd then enc_i32_array (List.map Z.of_N l) else enc_u32_array l.
+Definition e_content (rd : bs_reading) (l : list bs_content) (ext : list Z) : bytes :=
+  e_ctypes rd (List.map content_type l)
   ++ e_len (content_uris l) ++ flat_map e_string (content_uris l)
   ++ e_len (content_objs l) ++ enc_ref_array (content_objs l)
   ++ e_len ext ++ enc_ref_array ext.
@@ -338,8 +343,11 @@ Definition p_count4 : parser nat := fun b =>
   | Ok (k, b') => if N.ltb (N.of_nat (length b')) (4 * k) then Err BS_EOF else Ok (N.to_nat k, b')
   | Panic => Panic | Err c => Err c | OutOfFuel => OutOfFuel
   end.
-Definition p_content (n : nat) : parser bs_column :=
-  tys <~ dec_u32_array n ;;
+Definition p_ctypes (rd : bs_reading) (n : nat) : parser (list N) :=
+  if rd_content_types_i32 rd then l <~ dec_i32_array n ;; pret (List.map (fun z => if Z.ltb z 0 then 255 else Z.to_N z) l)
+  else dec_u32_array n.
+Definition p_content (rd : bs_reading) (n : nat) : parser bs_column :=
+  tys <~ p_ctypes rd n ;;
   nu <~ p_count ;; uris <~ prepeat nu p_string ;;
   no <~ p_count4 ;; objs <~ dec_ref_array no ;;
   ne <~ p_count4 ;; ext <~ dec_ref_array ne ;;
@@ -411,7 +419,7 @@ Definition bs_enc_col (rd : bs_reading) (use_ids : bool) (c : bs_column) : bytes
   | KOptionalCFrame l => 0x10 :: e_cframes use_ids (List.map fst l) ++ 0x02 :: List.map (fun t => e_bool (snd t)) l
   | KUniqueId l => interleave 16 (List.map (e_uid rd) l)
   | KFont l => flat_map e_font l
-  | KContent l ext => e_content l ext
+  | KContent l ext => e_content rd l ext
   end.
 
 Definition p_marker (m : N) : parser unit := x <~ read_u8 ;; if N.eqb x m then pret tt else pfail BS_OCF_MARKER.
@@ -453,7 +461,7 @@ Definition bs_dec_col (rd : bs_reading) (ty : N) (n : nat) : parser bs_column :=
             pret (KOptionalCFrame (combine cs bs))
   | 0x1f => buf <~ read_exact (n * 16) ;; pret (KUniqueId (List.map (d_uid rd) (deinterleave 16 n buf)))
   | 0x20 => l <~ prepeat n p_font ;; pret (KFont l)
-  | 0x22 => p_content n
+  | 0x22 => p_content rd n
   | _ => pfail BS_EOF      (* not reached: callers test bs_known_type first *)
   end.
 
@@ -804,7 +812,7 @@ Definition bs_col_values (sstr : list (bytes * bytes)) (label_of : Z -> N) (c : 
     (fix go (l : list N) : res (list value) :=
        match l with
        | [] => Ok []
-       | i :: r => match nth_error sstr (N.to_nat i) with
+       | i :: r => match (if N.ltb i (N.of_nat (length sstr)) then nth_error sstr (N.to_nat i) else None) with
                    | Some e => (rest <- go r ;; Ok (VSharedString (snd e) :: rest))
                    | None => Err BS_DOM_SSTR_INDEX
                    end
